@@ -126,6 +126,46 @@ func ruleR7_1(r *Run) {
 						break
 					}
 					if !okNode {
+						// equivalent form: the parents were validated against the child's repo DAG earlier on the
+						// path (a lookup in r.dag.nodes whose not-found outcome is an error and which dominates this
+						// store), and the node linked here is looked up by a version of the same parents list
+						st := in
+						for _, b2 := range f.Blocks {
+							for _, in2 := range b2.Instrs {
+								lk, ok := in2.(*ssa.Lookup)
+								if !ok || !lk.CommaOk || !isFieldLoad(lk.X, "dagT", "nodes") || b2 == st.Block() {
+									continue
+								}
+								// every path to the link passes this lookup (the parents list is known non-empty)
+								if findPath2(f, nil, func(x ssa.Instruction) bool { return x == ssa.Instruction(lk) }, func(x ssa.Instruction) bool { return x == st }, nil, nonEmptyRangeFilter(f)) != nil {
+									continue
+								}
+								var found *ssa.Extract
+								for _, ref := range *lk.Referrers() {
+									if ex, ok := ref.(*ssa.Extract); ok && ex.Index == 1 {
+										found = ex
+									}
+								}
+								if found == nil {
+									continue
+								}
+								for _, ref := range *found.Referrers() {
+									ifi, ok := ref.(*ssa.If)
+									if !ok {
+										continue
+									}
+									nf := ifi.Block().Succs[1]
+									if findPath(f, nf.Instrs[0], func(ssa.Instruction) bool { return false }, func(x ssa.Instruction) bool {
+										ret, ok := x.(*ssa.Return)
+										return ok && !isErrorExit(ret)
+									}, nil) == nil {
+										okNode = true
+									}
+								}
+							}
+						}
+					}
+					if !okNode {
 						same = false
 					}
 				}
@@ -414,6 +454,18 @@ func checkCounterPersist(r *Run) {
 					return ok && !isErrorExit(ret)
 				}
 				p := findPath(f, st, isPut, succ, nil)
+				if p != nil && name == "versionID" && loaderRaisesVersionID(w) {
+					// the version counter is also re-derived at start-up from the persisted uuid↔version maps
+					// (R12.5); persisting those maps after the increment is then sufficient
+					isCaches := func(x ssa.Instruction) bool { return w.performs(x, []string{"putCaches"}, 1) }
+					if p2 := findPath(f, st, isCaches, succ, nil); p2 == nil {
+						r.ok(construct+":persisted-after-increment", "the incremented counter is recoverable: the uuid↔version maps are persisted after the increment and the loader raises the counter above every known version id (>=)", w.pos(st.Pos()))
+						held := lockHeldAt(f, st, "idMutex", true)
+						r.check(held, construct+":under-idMutex", "idMutex is write-locked at the increment",
+							"the id counter "+name+" is incremented without holding idMutex for writing: two concurrent allocations can receive the same id", w.pos(st.Pos()))
+						continue
+					}
+				}
 				r.check(p == nil, construct+":persisted-after-increment",
 					"from the increment every path to a success exit passes through putNewIDs (the value persisted is the incremented counter)",
 					"the id counter "+name+" is incremented but a success exit is reachable without persisting it afterwards: after a restart the same id is handed out again", w.pos(st.Pos()), w.renderPath(p)...)
@@ -708,3 +760,45 @@ func ruleR7_6(r *Run) {
 }
 
 var _ = strings.Contains
+
+// loaderRaisesVersionID: loadMetadata raises the version-id counter to (known id)+k, k ≥ 1, for every
+// known id v with v >= counter (the conditions R12.5 checks).
+func loaderRaisesVersionID(w *World) bool {
+	lm := w.method("datastore", "repoManager", "loadMetadata")
+	if lm == nil {
+		return false
+	}
+	for _, st := range fieldStores(lm, "repoManager", "versionID") {
+		l := lin(st.Val, 0)
+		if !l.ok || l.c < 1 {
+			continue
+		}
+		fromRange := false
+		for _, rv := range rootsOfLin(st.Val) {
+			if ex, ok := rv.(*ssa.Extract); ok {
+				if nx, ok := ex.Tuple.(*ssa.Next); ok {
+					if rg, ok := nx.Iter.(*ssa.Range); ok && isFieldLoad(rg.X, "repoManager", "versionToUUID") {
+						fromRange = true
+					}
+				}
+			}
+		}
+		if !fromRange {
+			continue
+		}
+		for _, b := range lm.Blocks {
+			ifi, ok := b.Instrs[len(b.Instrs)-1].(*ssa.If)
+			if !ok || !guardedByEdge(ifi, 0, st) {
+				continue
+			}
+			bo, ok := ifi.Cond.(*ssa.BinOp)
+			if !ok {
+				continue
+			}
+			if (isFieldLoad(stripConv(bo.Y), "repoManager", "versionID") && bo.Op == token.GEQ) || (isFieldLoad(stripConv(bo.X), "repoManager", "versionID") && bo.Op == token.LEQ) {
+				return true
+			}
+		}
+	}
+	return false
+}
